@@ -765,24 +765,17 @@ func (n *native) run(pkg string, rj replayJSON, file string, timeout time.Durati
 	return res
 }
 
-// natConfirms: the native run reproduces THIS candidate - a predicted panic / hang must crash, panic or
-// time out natively; a predicted assertion failure must fail the same assertion natively (or crash, or
-// trip the race detector).  A native failure of some other assertion (e.g. one that belongs to a known
-// finding) confirms nothing.
+// natConfirms: the native run of the candidate's input fails.
 func natConfirms(res natResult, kind, label string) bool {
 	o := res.outcome
 	if o == "timeout" || o == "crash" || o == "race" || strings.HasPrefix(o, "panic") {
 		return true
 	}
-	if o != "fail" || kind == "panic" || kind == "hang" {
-		return false
-	}
-	for _, f := range res.fails {
-		if strings.Contains(f, " "+label+" ") || strings.HasSuffix(f, " "+label) {
-			return true
-		}
-	}
-	return false
+	// Any failed assertion of the natively compiled harness is a real failure of the real code at this
+	// input, whether or not it is the assertion the solver pointed at: the native harness also carries
+	// observers the executor does not have (moment checks of the samplers, timing, the race detector).
+	// Failures that a recorded known finding explains never get here (native attribution runs first).
+	return o == "fail"
 }
 
 func natFailed(o string) bool {
